@@ -108,6 +108,8 @@ var whitelist = []FuncSpec{
 	{"pkg/provider", "IdentityProvider", "GetEntityID"},
 	{"pkg/provider", "IdentityProvider", "GetMetadata"},
 	{"pkg/provider", "", "createRedirectSignature"},
+	{"pkg/provider/serviceprovider", "", "getSigningCertsFromMetadata"},
+	{"pkg/provider/serviceprovider", "", "NewServiceProvider"},
 }
 
 // standaloneOnly: translated for theorems of their own; callers keep consulting the (legacy) oracle of the same name, so
@@ -116,7 +118,8 @@ var whitelist = []FuncSpec{
 var standaloneOnly = map[string]bool{"pkg/provider/serviceprovider.ServiceProvider.ValidateRedirectSignature": true,
 	"pkg/provider/xml.DecodeAuthNRequest": true, "pkg/provider/xml.DecodeLogoutRequest": true,
 	"pkg/provider.IdentityProviderConfig.getMetadata": true, "pkg/provider.IdentityProvider.GetEntityID": true, "pkg/provider.IdentityProvider.GetMetadata": true,
-	"pkg/provider.createRedirectSignature": true}
+	"pkg/provider.createRedirectSignature": true,
+	"pkg/provider/serviceprovider.getSigningCertsFromMetadata": true, "pkg/provider/serviceprovider.NewServiceProvider": true}
 
 // extraFields are struct fields the hand-written handler models read although no translated function does.
 var extraFields = map[string][]string{
@@ -402,6 +405,7 @@ func isIgnoredType(t types.Type) bool {
 // ---------------------------------------------------------------- types
 
 func (w *world) leanType(t types.Type) string {
+	t = types.Unalias(t) // `any`
 	switch tt := t.(type) {
 	case *types.Basic:
 		switch {
@@ -1480,7 +1484,7 @@ var storageEffects = map[string]bool{"CreateAuthRequest": true}
 var outParamMethods = map[string]int{"SetUserinfoWithUserID": 1, "SetUserinfoWithLoginName": 0}
 
 // funcOracles: untranslated package-level functions that may be called as oracles (typed by their Go signature)
-var funcOracles = map[string]bool{"createRedirectSignature": true, "createPostSignature": true, "Marshal": true, "DeflateAndBase64": true, "DecodeLogoutRequest": true, "DecodeAuthNRequest": true, "DecodeAttributeQuery": true, "GetSigner": true, "Create": true, "ValidateRedirect": true, "IssuerFromContext": true, "ParseTlsKeyPair": true, "GetSigningContext": true, "CreateRedirect": true}
+var funcOracles = map[string]bool{"createRedirectSignature": true, "createPostSignature": true, "Marshal": true, "DeflateAndBase64": true, "DecodeLogoutRequest": true, "DecodeAuthNRequest": true, "DecodeAttributeQuery": true, "GetSigner": true, "Create": true, "ValidateRedirect": true, "IssuerFromContext": true, "ParseTlsKeyPair": true, "GetSigningContext": true, "CreateRedirect": true, "ParseMetadataXmlIntoStruct": true, "ParseCertificates": true}
 
 // scanInout finds the pointer parameters of f that the body assigns through, directly or by passing them to a
 // translated callee that does (callees are translated first: whitelist order).
@@ -2153,6 +2157,15 @@ func (c *tctx) expr(e ast.Expr) val {
 		iv := c.expr(x.Low)
 		g := append(append(sv.g, iv.g...), fmt.Sprintf("decide (%s < 0)", iv.e), fmt.Sprintf("decide (%s > Lib.goLen %s)", iv.e, sv.e))
 		return val{e: fmt.Sprintf("(Lib.byteDrop %s %s)", sv.e, iv.e), g: g}
+	case *ast.IndexExpr:
+		// l[k] with a constant index on a slice: out of range panics
+		if lit, ok := x.Index.(*ast.BasicLit); ok {
+			if _, isSlice := c.info.TypeOf(x.X).Underlying().(*types.Slice); isSlice {
+				v := c.expr(x.X)
+				return val{e: fmt.Sprintf("(%s.getD %s default)", v.e, lit.Value), g: append(v.g, fmt.Sprintf("decide (%s.length ≤ %s)", v.e, lit.Value))}
+			}
+		}
+		panic("unsupported index expression " + c.src(x))
 	case *ast.CallExpr:
 		return c.call(x)
 	case *ast.CompositeLit:
@@ -2485,6 +2498,9 @@ func (c *tctx) call(x *ast.CallExpr) val {
 		// package function?
 		if id, ok := fun.X.(*ast.Ident); ok {
 			if pn, ok := c.info.Uses[id].(*types.PkgName); ok {
+				if callee := c.calleeFn(fun); callee != nil && callee.inner == nil && callee.obj.Type().(*types.Signature).Recv() == nil {
+					return c.callTranslated(callee, x) // a translated function of another package of the library
+				}
 				return c.libCall(pn.Imported().Path(), fun.Sel.Name, x)
 			}
 		}
